@@ -77,6 +77,9 @@ Definition so_step (T U : ty) (s : option Z * option Z * option Z) (o : oop) : o
   | OMoveOptU t | OCtorMoveOptU t => let '(_, y) := spick t ab in (sput t (so_conv U T c) y, so_moved U c)
   | OEmplaceC v => (ab, Some v)
   | OResetC => (ab, None)
+  | OOwnMember t =>
+    let '(x, y) := spick t ab in
+    match x with Some v => (sput t (Some (conv TInt T v)) y, c) | None => s end
   end.
 
 Definition so_run (T U : ty) s (ops : list oop) := fold_left (so_step T U) ops s.
